@@ -3,7 +3,7 @@
    traces recorded from the real helpers on a real Crazyflie connected to the simulated device.
 
    Trace object [id, rate, haskalman, script, ev, blocked, devblocks]; events are records with the fields
-   e, op, cmd, id, vars, per, st, vals, read, v, t, res (see LogHelperProps); "emit" "take" "prx" "wake" "disc" are
+   e, op, cmd, id, vars, per, st, vals, read, v, t, res (see LogHelperProps); "emit" "take" "prx" "wake" "updclose" "disc" are
    needed by the binding only.  Mode (ranger / estimator) is a constant of the run: the harness sends the
    traces of the two helpers in separate batches.
 
@@ -16,7 +16,7 @@ CONSTANT Mode
 Traces == JsonDeserialize(IOEnv.TRACE_FILE)
 
 VARIABLES tid, l, mmon, mbad, mbadAt, conf, confAt,
-          rate, haskalman, script, pc, op, excbody, rres, si, bid, ladded, pendstart, lccf, scb, discpend, vals, window, syncq,
+          rate, haskalman, script, pc, op, excbody, rres, si, bid, ladded, pendstart, lccf, toc, pcpend, scb, discpend, sconn, vals, window, syncq,
           pq, pinfl, t1, now, dblk, inq, link, ndata, obs, mon, bad
 
 T == Traces[tid]
@@ -35,7 +35,7 @@ Bug == "none"
 D == INSTANCE LogHelper
 P == INSTANCE LogHelperProps
 
-specvars == <<rate, haskalman, script, pc, op, excbody, rres, si, bid, ladded, pendstart, lccf, scb, discpend, vals, window, syncq,
+specvars == <<rate, haskalman, script, pc, op, excbody, rres, si, bid, ladded, pendstart, lccf, toc, pcpend, scb, discpend, sconn, vals, window, syncq,
               pq, pinfl, t1, now, dblk, inq, link, ndata, obs, mon, bad>>
 
 Init == /\ tid \in 1..Len(Traces)
@@ -44,7 +44,7 @@ Init == /\ tid \in 1..Len(Traces)
         /\ conf = TRUE /\ confAt = 0
         /\ rate = Traces[tid].rate /\ haskalman = Traces[tid].haskalman /\ script = Traces[tid].script
         /\ pc = "idle" /\ op = "" /\ excbody = FALSE /\ rres = "" /\ si = 1
-        /\ bid = 0 /\ ladded = FALSE /\ pendstart = FALSE /\ lccf = FALSE /\ scb = FALSE /\ discpend = FALSE
+        /\ bid = 0 /\ ladded = FALSE /\ pendstart = FALSE /\ lccf = FALSE /\ toc = TRUE /\ pcpend = FALSE /\ scb = FALSE /\ discpend = FALSE /\ sconn = FALSE
         /\ vals = [j \in 1..6 |-> -1]
         /\ window = P!Window0 /\ syncq = <<>>
         /\ pq = <<>> /\ pinfl = FALSE /\ t1 = 0 /\ now = Traces[tid].t0
